@@ -3,7 +3,8 @@ C05 — dropping a Desync waits for its work and frees the value exactly once.
 `Desync::drop` is `sync(queue, free)` (generated fact), so it inherits sync's ordering and exclusivity.
 -/
 import DesyncModel.Spec
-import DesyncModel.Tables
+import DesyncModel.Tables.Panic
+import DesyncModel.Tables.Sync
 import DesyncModel.FactDrop
 import DesyncModel.Lemmas
 import DesyncModel.Setters
